@@ -21,9 +21,9 @@ type hgen struct {
 
 func (g *hgen) in(n int) int      { return g.rng.Intn(n) }
 func (g *hgen) p(pct int) bool    { return g.rng.Intn(100) < pct }
-func ip(i int) *int              { return &i }
-func up(u uint64) *uint64        { return &u }
-func keyBlob(n int) *Blob        { return &Blob{"key", n} }
+func ip(i int) *int               { return &i }
+func up(u uint64) *uint64         { return &u }
+func keyBlob(n int) *Blob         { return &Blob{"key", n} }
 func (g *hgen) anyAddr() int      { return g.in(g.r.w.nAddrs) }
 func (g *hgen) regularID() int    { return g.in(5) }
 func (g *hgen) weirdID() int      { return 5 + g.in(4) }
@@ -237,8 +237,37 @@ func deepGroup(levels int) *Grp {
 	return gr
 }
 
+// liveGroup: a well-formed group over registered identities that hold a live authentication key.
+func (g *hgen) liveGroup(depth int) *Grp {
+	var cands []int
+	for i := 0; i < 5; i++ {
+		if g.st[i].Flag == 1 && len(g.keysOf(i, live)) > 0 {
+			cands = append(cands, i)
+		}
+	}
+	if len(cands) == 0 {
+		return g.randGroup(0)
+	}
+	n := 1 + g.in(3)
+	gr := &Grp{}
+	for i := 0; i < n; i++ {
+		if depth < 2 && g.p(20) {
+			gr.Members = append(gr.Members, Mem{Group: g.liveGroup(depth + 1)})
+		} else {
+			gr.Members = append(gr.Members, Mem{ID: ip(cands[g.in(len(cands))])})
+		}
+	}
+	gr.Threshold = uint64(1 + g.in(n))
+	if g.p(4) {
+		gr.Threshold = 0
+	}
+	return gr
+}
+
 func (g *hgen) groupArg() *Grp {
 	switch x := g.in(100); {
+	case x < 60:
+		return g.liveGroup(0)
 	case x < 86:
 		return g.randGroup(0)
 	case x < 90:
@@ -312,7 +341,7 @@ func (g *hgen) register(id int) Op {
 	case x < 50 || (x < 100 && g.noRegistered()):
 		k := g.in(len(w.keys))
 		o := Op{M: "regIDWithPublicKey", ID: id, Key: keyBlob(k), Sig: []int{g.keyAddr(k)}}
-		if g.p(10) {
+		if g.p(5) {
 			o.M = "regIDWithAttributes"
 			o.Attrs = g.attrs()
 			o.AttrsBad = g.p(5)
@@ -494,46 +523,75 @@ func (g *hgen) keyIndex(id int) uint64 {
 
 // next draws the next operation.
 func (g *hgen) next() Op {
+	// registered identities that can still act are the preferred targets
+	var reg, unreg, rev []int
+	for i := 0; i < 5; i++ {
+		switch g.st[i].Flag {
+		case 1:
+			reg = append(reg, i)
+		case 0:
+			unreg = append(unreg, i)
+		case 2:
+			rev = append(rev, i)
+		}
+	}
 	var id int
-	if g.p(93) {
-		id = g.regularID()
-	} else {
+	switch x := g.in(100); {
+	case x < 5:
 		id = g.weirdID()
+	case x < 14 && len(rev) > 0:
+		id = rev[g.in(len(rev))]
+	case len(reg) < 3 && len(unreg) > 0 && x < 60:
+		id = unreg[g.in(len(unreg))]
+	case len(reg) > 0 && x < 88:
+		id = reg[g.in(len(reg))]
+	default:
+		id = g.regularID()
 	}
 	st := g.st[id]
 	switch {
-	case st.Flag == 0 && g.p(80):
+	case st.Flag == 0 && g.p(85):
 		return g.register(id)
-	case st.Flag == 2 && g.p(30):
+	case st.Flag == 2 && g.p(45):
 		return g.register(id)
 	}
-	// methods that fit the state are preferred
+	hasLive := len(g.keysOf(id, live)) > 0
+	byClass := func(c string) []string {
+		var out []string
+		for _, m := range validMethods {
+			if mclass(m) == c {
+				out = append(out, m)
+			}
+		}
+		return out
+	}
 	var cand []string
-	if st.Ctrl != nil && g.p(55) {
-		for _, m := range validMethods {
-			if mclass(m) == "by-controller" {
-				cand = append(cand, m)
-			}
-		}
-	} else if st.RecVer == 1 && g.p(45) {
-		for _, m := range validMethods {
-			if mclass(m) == "by-recovery" {
-				cand = append(cand, m)
-			}
-		}
-	} else if g.p(80) {
-		for _, m := range validMethods {
-			if mclass(m) == "by-own-key" {
-				cand = append(cand, m)
-			}
-		}
-	} else {
+	switch x := g.in(100); {
+	case st.Ctrl != nil && (x < 45 || !hasLive && x < 85):
+		cand = byClass("by-controller")
+	case hasLive && x >= 96:
+		cand = []string{"revokeID"}
+	case st.RecVer == 1 && x < 75:
+		cand = byClass("by-recovery")
+	case st.RecVer == 0 && len(st.Rec) == 20 && x < 70:
+		cand = []string{"changeRecovery", "addKey", "removeKey", "removeRecovery"}
+	case st.RecVer == -1 && hasLive && x < 60:
+		cand = []string{"setRecovery", "setRecovery", "addRecovery"}
+	case len(st.Attrs) > 0 && x < 70:
+		cand = []string{"removeAttribute", "removeAttributeByIndex", "removeAttributeByController", "addAttributes"}
+	case x < 92:
+		cand = byClass("by-own-key")
+	default:
 		cand = validMethods
 	}
 	m := cand[g.in(len(cand))]
 	// revocation ends an identity's story: keep it rarer
-	if (m == "revokeID" || m == "revokeIDByController") && g.p(60) {
+	if (m == "revokeID" || m == "revokeIDByController") && g.p(35) {
 		m = "addKeyByIndex"
+	}
+	// removing the recovery / controller again right away starves the by-recovery / by-controller calls
+	if (m == "removeRecovery" || m == "removeController") && g.p(60) {
+		m = "addAttributesByIndex"
 	}
 	return g.opFor(m, id)
 }
